@@ -400,6 +400,20 @@ class Rewriter:
                     pre = '' if it == var else 'let mut %s = %s;\n        ' % (it, var)
                     return ('%sloop {\n            let %s = match %s.next() { Some(__v) => __v, None => break };%s}' % (pre, x, it, body))
                 text = self._rewrite_counted(text, hdr, build)
+            elif frag.startswith('fornextenum:'):
+                # R19': `for (I, X) in ITER.enumerate() { body }` over an external iterator -> the loop's own desugaring with the counter
+                #       spelled out: `let mut __it_X = ITER; let mut I: usize = 0; loop { let X = match __it_X.next() {..}; body; I += 1; }`
+                #       (the `I += 1` carries a no-overflow obligation that std's Enumerate only checks in debug builds)
+                var = frag[len('fornextenum:'):]
+                hdr = r'\bfor\s*\(\s*(\w+)\s*,\s*(\w+)\s*\)\s+in\s+' + re.escape(var) + r'\.enumerate\(\)\s*\{'
+
+                def build(mm, body, var=var):
+                    i, x = mm.group(1), mm.group(2)
+                    if self._loop_level_continues(body):
+                        raise SrcError('R19 enumerate with continue unsupported')
+                    self.log.append(('R19', 'for (%s, %s) in %s.enumerate() -> counter + loop { match <iter>.next() { Some(v) => v, None => break } .. }' % (i, x, var)))
+                    return ('let mut __it_%s = %s;\n        let mut %s: usize = 0;\n        loop {\n            let %s = match __it_%s.next() { Some(__v) => __v, None => break };%s    %s += 1;\n        }' % (x, var, i, x, x, body, i))
+                text = self._rewrite_counted(text, hdr, build)
             elif frag.startswith('zip:'):
                 # R14: for (A, B) in X.iter().zip(Y) { body } -> index loop up to the shorter length
                 hdr = r'\bfor\s*\(\s*(&?)\s*(\w+)\s*,\s*(&?)\s*(\w+)\s*\)\s*in\s+(.+?)\.iter\(\)\.zip\((.+?)\)\s*\{'
